@@ -12,6 +12,7 @@ fn main() {
         "hdrmk" => hdrmk(args),
         "lazy" => lazy(args),
         "lazyedit" => lazyedit(args),
+        "ftypbox" => ftypbox(args),
         _ => format!("unknown-kind {kind}"),
     });
 }
@@ -206,6 +207,26 @@ fn lazyedit(args: &[&str]) -> String {
     let mut out = Vec::new();
     moov.put_buf(&mut out);
     format!("ok put={} elen={}", if out.is_empty() { "-".to_string() } else { hex(&out) }, moov.encoded_len())
+}
+
+/// `ftypbox <hex of one whole box> <0|1>`: Mp4Box::<FtypBox>::parse on the bytes, optionally the lazy parse of its payload
+/// (`data.parse()`: major brand, minor version, the brand array that keeps ALL remaining bytes), then put_buf / encoded_len.
+fn ftypbox(args: &[&str]) -> String {
+    use mp4san::parse::{FtypBox, Mp4Box, Mp4Value};
+    let bytes = unhex(args[0]);
+    let mut buf = BytesMut::from(&bytes[..]);
+    let mut b = match Mp4Box::<FtypBox>::parse(&mut buf) {
+        Ok(b) => b,
+        Err(e) => return format!("err parse {} step=parse", kind_of(e.get_ref())),
+    };
+    if args[1] == "1" {
+        if let Err(e) = b.data.parse() {
+            return format!("err parse {} step=0", kind_of(e.get_ref()));
+        }
+    }
+    let mut out = Vec::new();
+    b.put_buf(&mut out);
+    format!("ok put={} elen={} rest={}", if out.is_empty() { "-".to_string() } else { hex(&out) }, b.encoded_len(), buf.len())
 }
 
 fn lazy_op(moov: &mut MoovBox, i: usize, k: usize) -> Result<(), ParseError> {
